@@ -185,3 +185,140 @@ def _const_next_index(pl, b=None):
                 if e[0] == "const" and e[1].isdigit():
                     return int(e[1])
     return None
+
+
+# ------------------------------------------------------------------------------------------------
+def fieldswap(facts):
+    """reverse() must swap every direction-indexed field"""
+    r = RuleResult("FIELDSWAP", "Graph::reverse / StableGraph::reverse swap every direction-indexed ([_; 2]) field of Node and Edge "
+                                "(Node.next, Edge.next, Edge.node): the set of fields is read from the type definitions")
+    want = set()
+    for adt in ("graph_impl::Node", "graph_impl::Edge"):
+        a = facts.adts.get(adt)
+        if not a:
+            r.bad(Violation("FIELDSWAP", adt, "anchor-missing", G_FILE, 0, "%s not found - fail closed" % adt))
+            continue
+        for f in a["variants"][0]["fields"]:
+            if re.search(r"^\[.*; 2_usize\]$|^\[.*; 2\]$", f["ty"]):
+                want.add((adt.split("::")[-1], f["name"]))
+    for sfx in ("graph_impl::Graph::reverse", "graph_impl::stable_graph::StableGraph::reverse"):
+        bs = [b for b in facts.bodies if b.npath == sfx]
+        if not bs:
+            r.bad(Violation("FIELDSWAP", sfx, "anchor-missing", G_FILE, 0, "%s not found - fail closed" % sfx))
+            continue
+        b = bs[0]
+        got = set()
+        for i, t in b.calls():
+            if last_seg(t["f"]["path"]) != "swap" or not t["args"]:
+                continue
+            e = b.expr(t["args"][0], 8)
+            for s in walk_expr(e):
+                if isinstance(s, tuple) and s[0] == "place":
+                    for x in s[2]:
+                        if isinstance(x, tuple) and x[0] == "f" and x[3] in ("graph_impl::Node", "graph_impl::Edge"):
+                            got.add((x[3].split("::")[-1], x[2]))
+            # swap(0, 1)
+        missing = want - got
+        if want and not missing:
+            r.ok(b.npath, "swaps", "swaps %s" % sorted(got))
+        else:
+            r.bad(Violation("FIELDSWAP", b.npath, "swaps", b.file, b.line,
+                            "reverse() does not swap the direction-indexed field(s) %s (declared [_; 2] fields: %s): the reversed graph's "
+                            "lists and endpoints disagree" % (sorted(missing), sorted(want))))
+    r.floor = 2
+    return r
+
+
+K_FUNCS = {
+    "graph_impl::Graph::remove_node": "both lists of the removed node are drained with next[k]; the moved node's edges get node[k] re-pointed per list k",
+    "graph_impl::Graph::change_edge_links": "list k of endpoint edge_node[k] is relinked with next[k] / edge_next[k]",
+    "graph_impl::stable_graph::StableGraph::remove_node": "both lists of the removed node are drained with next[k]",
+}
+
+
+def _reach(b, start):
+    succ = b.cfg()[0]
+    seen = set()
+    stk = list(succ[start])
+    while stk:
+        x = stk.pop()
+        if x in seen:
+            continue
+        seen.add(x)
+        stk.extend(succ[x])
+    return seen
+
+
+def k_consistency(facts):
+    """inside `for d in DIRECTIONS { let k = d.index(); .. }` every direction array is indexed by that k"""
+    r = RuleResult("DIRIDX-K", "in the per-direction loops of remove_node / change_edge_links every access to a direction-indexed array (next, node, "
+                               "edge_node, edge_next, swap_edges) is indexed by k = d.index() of the loop's own direction (never a constant or 1-k), and the "
+                               "edge walker is started with the same direction d")
+    for fn, why in K_FUNCS.items():
+        bs = [b for b in facts.bodies if b.npath == fn]
+        if not bs:
+            r.bad(Violation("DIRIDX-K", fn, "anchor-missing", G_FILE, 0, "%s not found - fail closed" % fn))
+            continue
+        b = bs[0]
+        n = 0
+        bad = []
+        kblocks = [i2 for i2, t2 in b.calls() if last_seg(t2["f"]["path"]) == "index" and "Direction" in (t2["f"].get("self", "") + t2["f"]["path"])]
+        # blocks inside a per-direction loop: dominated by a k = d.index() call and able to reach it again (loop body)
+        inloop = set()
+        for kb in kblocks:
+            for blk in b.cfg()[2]:
+                if b.dominates(kb, blk) and kb in _reach(b, blk):
+                    inloop.add(blk)
+        for i, j, st in b.stmts():
+            if i not in inloop:
+                continue
+            pls = [st["lhs"]]
+            rv = st["rv"]
+            if rv["k"] in ("ref", "rawptr", "discr"):
+                pls.append(rv["pl"])
+            for o in rv.get("o", []):
+                p = op_place(o)
+                if p:
+                    pls.append(p)
+            for pl in pls:
+                fs = pl["p"]
+                for k_, x in enumerate(fs):
+                    if not (isinstance(x, dict) and "ix" in x):
+                        continue
+                    prev = fs[k_ - 1] if k_ > 0 else None
+                    is2 = False
+                    if isinstance(prev, dict) and prev.get("n") in ("next", "node") and prev.get("a", "").startswith("graph_impl"):
+                        is2 = True
+                    elif k_ == 0 or (k_ == 1 and prev == "*"):
+                        ty = b.lty(pl["l"])
+                        if re.search(r"\[[^\[\]]*; 2(_usize)?\]$", ty):
+                            is2 = True
+                    if not is2:
+                        continue
+                    n += 1
+                    e = b.local_expr(x["ix"], 6)
+                    ok = isinstance(e, tuple) and e[0] == "call" and last_seg(e[1]["path"]) == "index" and "Direction" in (e[1].get("self", "") + e[1]["path"])
+                    if not ok:
+                        bad.append((st["line"], "const %s" % e[1] if e[0] == "const" else ("1-k" if e[0] == "bin" else str(e[0]))))
+        if bad:
+            r.bad(Violation("DIRIDX-K", b.npath, "k-index", b.file, bad[0][0],
+                            "a direction-indexed array is indexed by %s instead of the loop's k = d.index() (lines %s): %s"
+                            % (bad[0][1], [x[0] for x in bad], why)))
+        else:
+            r.ok(b.npath, "k-index", "%d direction-array accesses, all indexed by k = d.index()" % n)
+        # the edge walker gets the loop's own direction
+        for i, t in b.calls():
+            if last_seg(callee_name(t["f"])) == "edges_walker_mut" and len(t["args"]) >= 3:
+                de = b.expr(t["args"][2], 6, named_leaf=True)
+                kcalls = [b.expr(b.blocks[i2]["term"]["args"][0], 6, named_leaf=True) for i2, t2 in b.calls()
+                          if last_seg(t2["f"]["path"]) == "index" and "Direction" in (t2["f"].get("self", "") + t2["f"]["path"]) and b.dominates(i2, i)]
+                from .tag import leaves as _lv
+                dl = {x for x in _lv(de) if x[0] == "local"}
+                ok = any(dl & {x for x in _lv(ke) if x[0] == "local"} for ke in kcalls) if kcalls else False
+                if ok:
+                    r.ok(b.npath, "walker-dir", "edges_walker_mut started with the loop's direction")
+                else:
+                    r.bad(Violation("DIRIDX-K", b.npath, "walker-dir", b.file, t["line"],
+                                    "edges_walker_mut is not started with the direction d whose index k is used in the loop body"))
+    r.floor = 5
+    return r
